@@ -1086,6 +1086,128 @@ class _RaggedSum(Op):
         return out
 
 
+@op('inrange')
+class _InRange(Op):
+    'InRange(index, n): identity with a run-time range assertion; out-of-range indices are out of domain'
+
+    def params(self, t):
+        return [(n,) for n in (2, 3)] if t[1] == 'i' else []
+
+    def ty(self, p, t):
+        if t[1] != 'i':
+            raise IllTyped
+        return t
+
+    def build(self, ev, p, x):
+        return ev.InRange(x, ev.constant(p[0]))
+
+    def ref(self, p, v):
+        if v.size and (v.min() < 0 or v.max() >= p[0]):
+            raise OutOfDomain
+        return v.copy()
+
+
+@op('normdim')
+class _NormDim(Op):
+    'NormDim(n, index): python-style negative index normalisation, index must lie in [-n, n)'
+
+    def params(self, t):
+        return [(n,) for n in (2, 3)] if t[1] == 'i' else []
+
+    def ty(self, p, t):
+        if t[1] != 'i':
+            raise IllTyped
+        return t
+
+    def build(self, ev, p, x):
+        n = ev.constant(p[0])
+        for k in x.shape:
+            n = ev.InsertAxis(n, k)
+        return ev.NormDim(n, x)
+
+    def ref(self, p, v):
+        if v.size and (v.min() < -p[0] or v.max() >= p[0]):
+            raise OutOfDomain
+        return numpy.where(v < 0, v + p[0], v)
+
+
+@op('ravelindex')
+class _RavelIndex(Op):
+    arity = 2
+
+    def params(self, t1, t2):
+        if t1[1] != 'i' or t2[1] != 'i' or len(t1[0]) + len(t2[0]) > 2:
+            return []
+        return [(2, 3)]
+
+    def ty(self, p, t1, t2):
+        if t1[1] != 'i' or t2[1] != 'i':
+            raise IllTyped
+        return t1[0] + t2[0], 'i'
+
+    def build(self, ev, p, x, y):
+        return ev.RavelIndex(x, y, ev.constant(p[0]), ev.constant(p[1]))
+
+    def ref(self, p, v, w):
+        return v[(...,) + (None,) * w.ndim] * p[1] + w
+
+
+@op('sizestooffsets')
+class _SizesToOffsets(Op):
+    def params(self, t):
+        return [()] if t[1] == 'i' and len(t[0]) == 1 else []
+
+    def ty(self, p, t):
+        if t[1] != 'i' or len(t[0]) != 1:
+            raise IllTyped
+        return (t[0][0] + 1,), 'i'
+
+    def build(self, ev, p, x):
+        return ev._SizesToOffsets(x)
+
+    def ref(self, p, v):
+        if (v < 0).any():
+            raise OutOfDomain
+        return numpy.concatenate([[0], numpy.cumsum(v)])
+
+
+@op('argsort')
+class _ArgSort(Op):
+    def params(self, t):
+        return [()] if t[1] in 'if' and len(t[0]) == 1 else []
+
+    def ty(self, p, t):
+        if t[1] not in 'if' or len(t[0]) != 1:
+            raise IllTyped
+        return t[0], 'i'
+
+    def build(self, ev, p, x):
+        return ev.ArgSort(x)
+
+    def ref(self, p, v):
+        return numpy.argsort(v, kind='stable')
+
+
+@op('searchsorted')
+class _SearchSorted(Op):
+    'positions of int values in a constant sorted table'
+    tables = ((0, 2, 3), (1,), (-1, 0, 0, 2))
+
+    def params(self, t):
+        return [(tb, side) for tb in self.tables for side in ('left', 'right')] if t[1] == 'i' else []
+
+    def ty(self, p, t):
+        if t[1] != 'i':
+            raise IllTyped
+        return t
+
+    def build(self, ev, p, x):
+        return ev.SearchSorted(x, ev.constant(numpy.array(p[0], dtype=int)), None, p[1])
+
+    def ref(self, p, v):
+        return numpy.searchsorted(numpy.array(p[0]), v, side=p[1])
+
+
 # ------------------------------------------------------------------ interpretation
 
 def typeof(term, _memo=None):
@@ -1251,7 +1373,7 @@ def float_value(name, shape, vset):
     return v
 
 
-def valuations(args, nsets=3, exhaustive_int=True):
+def valuations(args, nsets=3, exhaustive_int=True, int_values=(0, 1)):
     '''list of env dicts: float/complex arguments take the fixed sets 0..nsets-1, int index arguments and bool
     arguments are enumerated exhaustively over {0,1} per entry (valid as index for every axis of length >= 2)'''
     floats = {n: t for n, t in args.items() if t[1] in 'fc'}
@@ -1259,7 +1381,12 @@ def valuations(args, nsets=3, exhaustive_int=True):
     combos = [{}]
     for n, (shape, kind) in sorted(discrete.items()):
         m = int(numpy.prod(shape)) if shape else 1
-        vals = [numpy.array(bits, dtype=npdtype(kind)).reshape(shape) for bits in itertools.product((0, 1), repeat=m)]
+        domain = (0, 1) if kind == 'b' else int_values
+        if m > 4:   # large index arrays: a fixed family of patterns instead of the full product
+            pats = [[domain[(k * a + b) % len(domain)] for k in range(m)] for a, b in ((0, 0), (0, 1), (1, 0), (1, 1), (3, 1))]
+            vals = [numpy.array(pt, dtype=npdtype(kind)).reshape(shape) for pt in pats]
+        else:
+            vals = [numpy.array(bits, dtype=npdtype(kind)).reshape(shape) for bits in itertools.product(domain, repeat=m)]
         if not exhaustive_int:
             vals = vals[1:3] if len(vals) > 2 else vals
         combos = [dict(c, **{n: v}) for c in combos for v in vals]
